@@ -44,6 +44,14 @@ Next == /\ ~done
                   Emit([op |-> "iv.approx", mode |-> "ulps",
                         a |-> Iv(ka, LoV(0), HiV(0)), b |-> Iv(kb, LoV(d1), HiV(d2)),
                         eps |-> [n |-> n, p |-> -11], max_ulps |-> u])
+             \* relative comparison with BOTH tolerances in play on bounds of very different magnitude: the low bounds
+             \* (0 and d1 * 2^-30) can only match through the absolute epsilon n * 2^-31, the high bounds (2^20 and
+             \* 2^20 + d2) only through max_relative m * 2^-21 - each bound pair is judged on its own
+             /\ \A n \in {1, 3, 7} : \A m \in {1, 3, 7} :
+                  Emit([op |-> "iv.approx", mode |-> "rel",
+                        a |-> Iv(ka, [n |-> 0, p |-> 0], [n |-> 1048576, p |-> 0]),
+                        b |-> Iv(kb, [n |-> d1, p |-> -30], [n |-> 1048576 + d2, p |-> 0]),
+                        eps |-> [n |-> n, p |-> -31], max_rel |-> [n |-> m, p |-> -21]])
              \* a negative epsilon: nothing is approximately equal to anything, not even an interval to itself
              /\ (d1 = 0 /\ d2 = 0) =>
                   /\ Emit([op |-> "iv.approx", mode |-> "abs", a |-> Iv(ka, LoV(0), HiV(0)), b |-> Iv(kb, LoV(0), HiV(0)),
